@@ -80,5 +80,5 @@ def run(rep, f, c, rule='R-SINGLEBYTE'):
         rep.ob(rule + '.first', name, cover and not wrong,
                'the search order does not cover the table exactly once, or finds a later pointer than the first one for %s' %
                ', '.join('U+%04X (byte %02X, first %02X)' % (v, 0x80 + a, 0x80 + b_) for v, a, b_ in wrong[:3]), site, {'table_entries': 128}, c)
-    rep.floor(rule, 'single-byte Encoding statics', n, 28, c)
+    rep.floor(rule, 'single-byte Encoding statics', n, 28, c, exact=True)
     return n
